@@ -142,4 +142,96 @@ func init() {
 		}
 		return res
 	}
+	// breuse <san> <tid> <name> <hexA> <hexB>: content B (sorted, duplicate free: taken from the string variant's own
+	// output) read in each format by each variant into (1) a fresh object, (2) an object that read A before, (3) an object
+	// that read A and was Reset(): all three must hold B.  Per variant and format: ok | rt (a fresh object does not
+	// reproduce B) | reuse | reset | readerr | - (format not generated)
+	ops["breuse"] = func(f []string) string {
+		old := debug.SetMaxStack(32 << 20)
+		defer debug.SetMaxStack(old)
+		it := meta.FactoryItemByTLName(f[3])
+		if it == nil {
+			return "driver-error no item " + f[3]
+		}
+		tl2 := it.HasTL2()
+		src := func(h string) (regOut, bool) {
+			o := factory.CreateObjectFromName(f[3])
+			if _, err := o.ReadTL1Boxed(unhex(h)); err != nil {
+				return regOut{}, false
+			}
+			w := regWriteAll(o, tl2)
+			return w, !w.t1err && !w.jserr
+		}
+		a, okA := src(f[4])
+		b, okB := src(f[5])
+		if !okA || !okB {
+			return "input-rejected"
+		}
+		read := func(o meta.Object, format string, in regOut) error {
+			switch format {
+			case "t1":
+				_, err := o.ReadTL1Boxed(in.t1)
+				return err
+			case "js":
+				return o.ReadJSONGeneral(&basictl.JSONReadContext{}, &basictl.JsonLexer{Data: in.js})
+			default:
+				r, ok := o.(regTL2Reader)
+				if !ok {
+					return fmt.Errorf("no ReadTL2")
+				}
+				_, err := r.ReadTL2(in.t2, &basictl.TL2ReadContext{})
+				return err
+			}
+		}
+		same := func(x, y regOut) bool { return !strings.Contains(regEq(x, y), "=0") }
+		var parts []string
+		for _, v := range []string{"s", "b"} {
+			mk := func() meta.Object {
+				if v == "s" {
+					return factory.CreateObjectFromName(f[3])
+				}
+				return regBytesObj(f[3])
+			}
+			for _, format := range []string{"t1", "js", "t2"} {
+				code := "ok"
+				if format == "t2" && !b.hasT2 {
+					parts = append(parts, v+":"+format+"=-")
+					continue
+				}
+				fresh := mk()
+				if err := read(fresh, format, b); err != nil {
+					parts = append(parts, v+":"+format+"=readerr")
+					continue
+				}
+				of := regWriteAll(fresh, tl2)
+				if !same(of, b) {
+					code = "rt"
+				} else {
+					reused := mk()
+					e1 := read(reused, format, a)
+					e2 := read(reused, format, b)
+					rst := mk()
+					e3 := read(rst, format, a)
+					if r, ok := rst.(regReset); ok {
+						r.Reset()
+					}
+					e4 := read(rst, format, b)
+					if e1 != nil || e2 != nil || e3 != nil || e4 != nil {
+						code = "readerr2"
+					} else if !same(of, regWriteAll(reused, tl2)) {
+						code = "reuse"
+					} else if !same(of, regWriteAll(rst, tl2)) {
+						code = "reset"
+					}
+				}
+				parts = append(parts, v+":"+format+"="+code)
+			}
+		}
+		return "ok " + strings.Join(parts, " ")
+	}
+}
+
+type regReset interface{ Reset() }
+type regTL2Reader interface {
+	ReadTL2(r []byte, tctx *basictl.TL2ReadContext) ([]byte, error)
 }
